@@ -26,22 +26,29 @@ Fields by the way the loader treats them:
 |-------------------------------------------------|---------|
 | `entityUID`, `cstType`, `alias`                 | required (`at`), then re-registered by `IdentityManager::RegisterID` (a taken uid is replaced by a random new one = `Env.fresh`; a taken / ill-formed / wrong-kind alias by `NewNameFor`, and the record is renamed = `Env.rename`) |
 | `convention`, `term`, `definition`, `definition.formal`, `definition.text`, `resolved`, `forms`, `title`, `alias`, `comment` (document), `tracking` | optional (`LoadOptionalKey` / `contains`), default empty |
-| `term.raw`, `text.raw`, `forms[i].tags`, `forms[i].text`, `tracking[i].entityUID/flags`, `data[i].entityUID/wasCalculated` | required |
+| `term.raw`, `text.raw`, `forms[i].tags`, `forms[i].text`, `tracking[i].entityUID/flags`, `data[i].entityUID` | required |
+| `data[i].wasCalculated`                         | required — unless `entityUID` is not a uid of the loaded core: then the whole element is skipped before this key is read |
 | `type` (`"constituenta"`, `"rsform"`, `"rsmodel"`) | written, never read |
 | `term.resolved`, `definition.text.resolved`     | read into the cache, then RECOMPUTED by `RSCore::UpdateState` (`Thesaurus::UpdateState`) |
 | `parse` block                                   | written, never read: RECOMPUTED by `Schema::UpdateState` (`Schema::Load` resets the `ParsingInfo`) |
 | position in `items`                             | re-derived by `CstList::Insert` (kind-ordered insertion) |
 | `data[i].value` of an RS object                 | `SDCompact::Unpack` against the RECOMPUTED typification; dropped when there is no typification or the table does not unpack |
+| `data[i]` with an `entityUID` the core does not have | ignored (`if (!model.Core().Contains(uid)) continue;`): nothing else of the element is read |
+| `data[i].texts` of a constituent that is not a base set | ignored without being parsed (`contains("texts") && IsBaseSet(type)`) |
 
 The recomputation (`UpdateState`: resolving references, parsing and type checking: C07) is an
 explicit input `Env.analyse` / `Env.typif`, like the random uid source.
 
 `fromJson … = none` stands for: the C++ throws (`at` on a missing key, `get<T>` on a wrong JSON
-type, `Schema::At` on an unknown uid), dereferences a null pointer (`"texts"` given for a
-constituent that is not a base set: `*TextFor(target)` in `SetTextInternal`), or the document is
-outside the modelled class: numbers are integers `0 ≤ n` for uids, arrays where the code
+type), or the document is outside the modelled class: numbers are integers `0 ≤ n` for uids, arrays where the code
 iterates (`begin(j)`/`end(j)` of a non-array is not modelled).
 Strings are Lean `String`s = valid UTF-8 (nlohmann's `dump` throws on invalid UTF-8).
+
+(History: before the /repo commit "fix: loading a model ignores data of unknown constituents and
+texts of non-base constituents" a `data` element with an unknown uid made `Schema::At` throw
+`std::out_of_range`, and `"texts"` given for a constituent that is not a base set made
+`SetTextInternal` dereference the null `TextFor(target)`; the model had `none` for both. Both
+were found while writing this model and repaired as C04 violations.)
 -/
 namespace CCVerif.JsonDoc
 open CCVerif.Json CCVerif.Core CCVerif.SDC
@@ -401,7 +408,7 @@ structure Model where
   items : List Record := []
   data : List DataEntry := []
 
-/-- `model.GetRS(uid).type` (`Schema::At`: throws for an unknown uid) -/
+/-- `model.GetRS(uid).type` (`none`: `!Core().Contains(uid)`; `Schema::At` would throw) -/
 def kindOf (items : List Record) (uid : Nat) : Option CstType :=
   (items.find? (·.uid == uid)).map (·.type)
 
@@ -477,38 +484,42 @@ structure Upd where
   texts : Option TextInterp := none
   stmt : Option Bool := none
 
-/-- reading of one `data` element (`LoadData` loop body up to the calls into the values facet) -/
-def decodeEntry (items : List Record) (ty : Nat → Option Ty) (j : Json) : Option Upd := do
+/-- reading of one `data` element (`LoadData` loop body up to the calls into the values facet).
+Outer `none` = the C++ throws; `some none` = the element is skipped (`continue`: its uid is not
+a uid of the loaded core; nothing but `entityUID` has been read). -/
+def decodeEntry (items : List Record) (ty : Nat → Option Ty) (j : Json) : Option (Option Upd) := do
   let uid ← (j.get "entityUID") >>= asNat
-  let wasCalc ← (j.get "wasCalculated") >>= Json.asBool
-  let kind ← kindOf items uid
-  if isRSObject kind then
-    let sdata ← match j.get "value" with
-      | none => some none
-      | some v =>
-        match ty uid with
+  match kindOf items uid with
+  | none => pure none                               -- `!model.Core().Contains(uid)`
+  | some kind =>
+    let wasCalc ← (j.get "wasCalculated") >>= Json.asBool
+    if isRSObject kind then
+      let sdata ← match j.get "value" with
         | none => some none
-        | some τ =>
-          match tableFromJson v with
-          | none => none
-          | some tbl =>
-            match unpack tbl τ with
-            | .ok d => some (some d)
-            | .none => some none
-            | .fault _ => none
-    let texts ← match j.get "texts" with
-      | none => some none
-      | some t =>
-        -- `SetTextInternal` dereferences `TextFor(target)`: null unless the target is a base set
-        if isBaseSet kind then (TextInterp.fromJson t).map some else none
-    pure { uid := uid, wasCalc := wasCalc, sdata := sdata, texts := texts }
-  else if !isCallable kind then
-    match j.get "value" with
-    | none => pure { uid := uid, wasCalc := wasCalc }
-    | some v => do
-      let b ← v.asBool
-      pure { uid := uid, wasCalc := wasCalc, stmt := some b }
-  else pure { uid := uid, wasCalc := wasCalc }
+        | some v =>
+          match ty uid with
+          | none => some none
+          | some τ =>
+            match tableFromJson v with
+            | none => none
+            | some tbl =>
+              match unpack tbl τ with
+              | .ok d => some (some d)
+              | .none => some none
+              | .fault _ => none
+      let texts ← match j.get "texts" with
+        | none => some none
+        | some t =>
+          -- `contains("texts") && IsBaseSet(type)`: not even parsed for other kinds
+          if isBaseSet kind then (TextInterp.fromJson t).map some else some none
+      pure (some { uid := uid, wasCalc := wasCalc, sdata := sdata, texts := texts })
+    else if !isCallable kind then
+      match j.get "value" with
+      | none => pure (some { uid := uid, wasCalc := wasCalc })
+      | some v => do
+        let b ← v.asBool
+        pure (some { uid := uid, wasCalc := wasCalc, stmt := some b })
+    else pure (some { uid := uid, wasCalc := wasCalc })
 
 /-- effect of one element on the entry of its uid: `LoadData(uid, sdata)` (`SetRSInternal`), then
 `LoadData(uid, texts)` (`SetTextInternal`: nothing when equal to the current texts, otherwise
@@ -529,7 +540,7 @@ def loadData (items : List Record) (ty : Nat → Option Ty) (j : Json) : Option 
   let store ← (sortUids (items.map (·.uid))).mapM (resetFor items ty)
   let xs ← j.asArr
   let us ← xs.mapM (decodeEntry items ty)
-  pure (us.foldl applyUpd store)
+  pure ((us.filterMap id).foldl applyUpd store)
 
 /-- `from_json(const JSON&, RSModel&)` into a fresh `RSModel` -/
 def Model.fromJson (env : Env) (j : Json) : Option Model := do
